@@ -27,6 +27,7 @@ type Config struct {
 	MaxPaths     int64
 	Ascii7       bool
 	Preempt      int
+	NoInitExtra  bool // skip the plan's init_extra package initialisers in this run
 	Delays       int // -1: unlimited; otherwise at most this many scheduling choices other than the canonical one per path
 	Params       map[string]int
 	SymMapOrder  bool
